@@ -116,8 +116,8 @@ mut("c01_parse_identities_comment_swallows_next_line", "C01", "ParseIdentities s
 		i, err := ParseX25519Identity(line)""")])
 
 # ---------------- C02 ----------------
-mut("c02_revert_fix_trailing_with_eof", "C02", "reverts fix 6401ece: trailing byte delivered together with io.EOF is not seen",
- [("internal/stream/stream.go", """		if n, err := r.src.Read(make([]byte, 1)); n > 0 || err == nil {""", """		if _, err := r.src.Read(make([]byte, 1)); err == nil {""")])
+mut("c02_revert_fix_trailing_with_eof", "C02", "reverts fix 6401ece (in its present form after a93cab5): a trailing byte delivered together with io.EOF is not seen",
+ [("internal/stream/stream.go", """		if n, err := io.ReadFull(r.src, make([]byte, 1)); n > 0 {""", """		if _, err := r.src.Read(make([]byte, 1)); err == nil {""")])
 mut("c06_counter_carry_lost", "C06", "chunk counter increments only its lowest byte: counter wraps after 256 chunks (nonce reuse, chunk 256 == chunk 0 nonce)",
  [("internal/stream/stream.go", """	for i := len(nonce) - 2; i >= 0; i-- {
 		nonce[i]++
@@ -414,7 +414,9 @@ mut("c13_revert_fix_armor_read_after_error", "C13", "reverts fix 7f019fc: data r
 mut("c13_stream_reader_maps_src_error_to_eof_after_last", "C13", "error from the trailing probe treated as end of stream",
  [("internal/stream/stream.go", """		} else if err != io.EOF {
 			r.err = fmt.Errorf("non-EOF error reading after end of encrypted file: %w", err)
-		} else {""", """		} else {""")])
+		} else {""", """		} else if err != io.EOF && n < 0 {
+			r.err = fmt.Errorf("non-EOF error reading after end of encrypted file: %w", err)
+		} else {""")])
 
 # ---------------- C15 ----------------
 mut("c15_revert_fix_empty_output_error", "C15", "reverts fix 3294f72",
@@ -464,10 +466,13 @@ mut("c16_index_check_dropped", "C16", "recipient-stanza index is parsed but not 
 """, """			_ = n
 """)])
 mut("c16_duplicate_file_key_accepted", "C16", "second file-key message silently replaces the first",
- [("plugin/client.go", """			if fileKey != nil {
+ [("plugin/client.go", """			if gotFileKey {
 				return nil, fmt.Errorf("received duplicated file-key stanza")
 			}
-""", "")])
+""", """			if gotFileKey && fileKey == nil {
+				return nil, fmt.Errorf("received duplicated file-key stanza")
+			}
+""")])
 mut("c16_repeated_labels_accepted", "C16", "repeated labels message overwrites",
  [("plugin/client.go", """			if labels != nil {
 				return nil, nil, fmt.Errorf("repeated labels stanza")
